@@ -95,7 +95,9 @@ def extract(inst):
             try:
                 val = mod.checksum(w2, **kw)
             except Exception as e:
-                raise run.MachineryError('extraction: %s.checksum(%r) raised %r' % (inst['name'], w2, e))
+                # not total on its own alphabet: a state of its own, so that the model and the conformance step (X1: the code
+                # returns no state for this string) say so -- not a failure of the machinery
+                val = 'raises ' + type(e).__name__
             k2 = (val, len(w2) % inst['period'])
             if k2 not in ids:
                 ids[k2] = len(ids)
@@ -109,8 +111,11 @@ def extract(inst):
     acc = []
     for key in order[1:]:
         q = ids[key]
-        if mod.is_valid(wit[q], **kw) is True:
-            acc.append(q)
+        try:
+            if mod.is_valid(wit[q], **kw) is True:
+                acc.append(q)
+        except Exception:
+            pass
     aut = {'nq': len(ids), 'na': len(A), 'q0': 0, 'acc': acc,
            'delta': [delta[q] for q in range(len(ids))],
            'kind': [kind_of(c, inst) for c in A], 'swapok': [c in inst['swapok'] for c in A],
